@@ -70,6 +70,8 @@ def ncell(x):
 def gen_world(rng, n):
     tasks, roots = es.gen_structure(rng, n)
     ids = rng.sample(range(-3, 3 * n + 2), n)
+    if rng.random() < 0.3:
+        ids = [i + 1000 if i > 0 else i for i in ids]        # large numbers: equal ids are not the same int object
     if rng.random() < 0.5 and 0 not in ids:
         ids[rng.randrange(n)] = 0
     W = {"ids": ids, "par": [t["par"] for t in tasks], "kids": [t["kids"] for t in tasks], "roots": roots,
